@@ -122,7 +122,12 @@ def judge(ctx, case):
                 ctx.violation("crash-point", "operand-corrupted", sub,
                               "%s (call %s of %d, status %s): %s: %s" % (label, k, total, status, nm, msg), group + (":window" if "inside-mutation-window" in strata else ""))
                 return
-            same = after[0] == bef[0] and (len(after) == 1 or (after[2] == bef[2] and (abs(after[1] - bef[1]) <= F(1, 10**14) * max(1, abs(bef[1])) if all_rational else abs(float(after[1]) - float(bef[1])) <= 1e-9 * max(1.0, abs(float(bef[1]))))))
+            # a (completed or interrupted) operator re-splits a curved operand
+            # in place and may degree-reduce a short piece within the
+            # documented clean() tolerance: same area allowance as C08
+            curved_op = any(len(sg) > 2 for c in lib.spec_curves(spec) for sg in c)
+            atol = 2.5e-4 * max([rg.curve_size(c) for c in lib.spec_curves(spec)] or [1.0]) if curved_op else 0.0
+            same = after[0] == bef[0] and (len(after) == 1 or (after[2] == bef[2] and (abs(after[1] - bef[1]) <= F(1, 10**14) * max(1, abs(bef[1])) if all_rational else abs(float(after[1]) - float(bef[1])) <= 1e-9 * max(1.0, abs(float(bef[1]))) + atol)))
             if not same:
                 ctx.violation("crash-point", "operand-answers-changed", sub,
                               "%s (call %s of %d): %s answered %r before and %r after" % (label, k, total, nm, bef, after), group)
